@@ -237,6 +237,68 @@ func runC11(c *core.Ctx) {
 		}
 	}
 
+	// a wrapped key that does not unwrap under the supplied private key (an altered octet, wrapped to somebody else's key, random octets,
+	// a private key of another size): the result is an error - for every key transport, whichever cipher the key was meant for
+	c.Group("undecodable-wrapped-key")
+	{
+		rk := samlgen.Key("sp2048").Key.(*rsa.PrivateKey)
+		otherPub := &samlgen.Key("spother").Key.(*rsa.PrivateKey).PublicKey
+		smallKey := samlgen.Key("sp1024").Key.(*rsa.PrivateKey)
+		for _, tr := range []xenc.KeyTransport{{Alg: xenc.OAEPMGF1P, DigestURI: "http://www.w3.org/2000/09/xmldsig#sha1"}, {Alg: xenc.OAEPMGF1P, DigestURI: "http://www.w3.org/2001/04/xmlenc#sha256"}, {Alg: xenc.RSA15}} {
+			for _, a := range algs {
+				for _, how := range []string{"first-octet-altered", "middle-octet-altered", "last-octet-altered", "wrapped-to-another-key", "all-zero-octets", "counter-octets", "private-key-of-another-size"} {
+					for _, entry := range []string{"EncryptedKey", "EncryptedData"} {
+						tr, a, how, entry := tr, a, how, entry
+						key := fmt.Sprintf("unwrap/%s/%s/%s/%s", tr.Alg[strings.LastIndex(tr.Alg, "#")+1:]+"+"+tr.DigestURI[strings.LastIndexAny(tr.DigestURI, "#/")+1:], a.name, how, entry)
+						c.Case(key, func(t *core.T) {
+							t.NonTrivial()
+							cek := detKey(a.libKey, "cek"+a.name)
+							pub := &rk.PublicKey
+							if how == "wrapped-to-another-key" {
+								pub = otherPub
+							}
+							w, err := xenc.WrapKey(tr, pub, harness.NewCtr("unwrap"+key), cek)
+							if err != nil {
+								t.Outcome("harness-cannot-wrap")
+								return
+							}
+							switch how {
+							case "first-octet-altered":
+								w[0] ^= 0x01
+							case "middle-octet-altered":
+								w[len(w)/2] ^= 0x80
+							case "last-octet-altered":
+								w[len(w)-1] ^= 0xff
+							case "all-zero-octets":
+								w = make([]byte, len(w))
+							case "counter-octets":
+								for i := range w {
+									w[i] = byte(i)
+								}
+							}
+							var dk interface{} = rk
+							if how == "private-key-of-another-size" {
+								dk = smallKey
+							}
+							ek := xenc.EncryptedKeyEl(tr, "", w)
+							var el *etree.Element = ek
+							if entry == "EncryptedData" {
+								el = xenc.EncryptedDataEl(a.alg, ek, validData(a, cek, 20))
+							}
+							pt, derr, pan := decryptTotal(t, "C11/unwrap/"+tr.Alg[strings.LastIndex(tr.Alg, "#")+1:], dk, el)
+							t.Outcome(outcomeOf(derr, pan))
+							t.Modelled(core.MustReject)
+							t.Compared()
+							if !pan && derr == nil {
+								t.Fail("C11/unwrap/"+tr.Alg[strings.LastIndex(tr.Alg, "#")+1:]+"/no-error-for-a-key-that-does-not-unwrap", "%s: Decrypt returned %d bytes and no error although the wrapped key (%s) cannot be unwrapped with the supplied private key", key, len(pt), how)
+							}
+						})
+					}
+				}
+			}
+		}
+	}
+
 	// 2. crafted final padding byte
 	c.Group("padding-byte")
 	for _, a := range algs {
@@ -747,6 +809,42 @@ func c11StructOps(sp, other *samlgen.KeyPair) []c11Op {
 				return true
 			}
 			return false
+		}},
+		// the mismatching certificate is not in the first place one might look: behind an X509Data that only names the subject, behind a
+		// KeyInfo that only carries a KeyName, behind an X509SKI
+		{"mismatching-cert-in-second-x509data", true, func(ed *etree.Element) bool {
+			xd := x509data(ed)
+			if xd == nil || xd.FindElement("./X509Certificate") == nil {
+				return false
+			}
+			xd.FindElement("./X509Certificate").SetText(other.CertB64)
+			first := etree.NewElement("ds:X509Data")
+			first.CreateElement("ds:X509SubjectName").SetText("CN=whoever")
+			xd.Parent().InsertChildAt(xd.Index(), first)
+			return true
+		}},
+		{"mismatching-cert-in-second-keyinfo", true, func(ed *etree.Element) bool {
+			xd := x509data(ed)
+			if xd == nil || xd.FindElement("./X509Certificate") == nil {
+				return false
+			}
+			xd.FindElement("./X509Certificate").SetText(other.CertB64)
+			ki := xd.Parent()
+			first := etree.NewElement("ds:KeyInfo")
+			first.CreateElement("ds:KeyName").SetText("the-sp-key")
+			ki.Parent().InsertChildAt(ki.Index(), first)
+			return true
+		}},
+		{"mismatching-cert-after-ski", true, func(ed *etree.Element) bool {
+			xd := x509data(ed)
+			if xd == nil || xd.FindElement("./X509Certificate") == nil {
+				return false
+			}
+			xd.FindElement("./X509Certificate").SetText(other.CertB64)
+			ski := etree.NewElement("ds:X509SKI")
+			ski.SetText("AAECAwQFBgcICQoLDA0ODxAREhM=")
+			xd.InsertChildAt(0, ski)
+			return true
 		}},
 		{"rm-x509cert", false, rm("./KeyInfo/EncryptedKey/KeyInfo/X509Data/X509Certificate")},
 		{"rm-x509data", false, rm("./KeyInfo/EncryptedKey/KeyInfo/X509Data")},
